@@ -289,6 +289,11 @@ def run(prog, rep):
     rep.floor("FILL-1", n_fill, 7, "guarded attribute fills")
 
     # ------------------------------------------------------------ shared rules
+    from ..report import import_verdicts
+    import_verdicts(prog, rep, "C05", ("OWN-3", "RET-1"), "CLONE-V",
+                    "merge adds clones of the source Properties: clone() hands the stored values to the values setter of the copy (the only writer "
+                    "of _values that also re-imports n-tuple values); a clone that fills _values itself raises for tuple dtypes in the middle of a "
+                    "merge. The converters merge relies on for non strict merges return normal forms (RET-1)")
     strict_forwarded(prog, rep, "FWD-1")
     pure_footprint(prog, rep, S, ["section.BaseSection.merge", "property.BaseProperty.merge"], "PURE-1")
     merge_adds_clones(prog, rep, S, "ALIAS-4")
